@@ -419,6 +419,18 @@ def bucket(exc):
     frame = innermost_ppci_frame(exc)
     name = type(exc).__name__
     detail = _norm(exc)
+    if isinstance(exc, AssertionError) and frame == "arch/token.py:__setitem__":
+        # an operand does not fit its encoding field: name the instruction class and the direction
+        tb, item, value, limit = exc.__traceback__, None, None, None
+        while tb is not None:
+            loc = tb.tb_frame.f_locals
+            if tb.tb_frame.f_code.co_name == "do_emit" and "item" in loc:
+                item = loc["item"]
+            if tb.tb_frame.f_code.co_name == "__setitem__":
+                value, limit = loc.get("value"), loc.get("limit")
+            tb = tb.tb_next
+        if item is not None and isinstance(value, int):
+            detail = "encoding %s: field value %s" % (type(item).__name__, "negative" if value < 0 else "too large")
     if isinstance(exc, RuntimeError) and "not covered" in str(exc):
         tb = exc.__traceback__
         tree = None
